@@ -493,11 +493,14 @@ class Interp:
         if len(self.frames) > 60:
             raise QBError('stack')
         self.frames.append(fr)
+        caller_stmt = self.cur_stmt
         try:
             try:
                 self.run_body(pr['body'])
             except ExitProc:
                 pass
+            # back in the calling statement: what fails from here on (the rest of its expression, the store) is its error
+            self.cur_stmt = caller_stmt
         finally:
             self.frames.pop()
         if pr['kind'] == 'function':
